@@ -1044,10 +1044,24 @@ class Publish:
         # We need to remove from surprise_shares any shares that we are
         # knowingly also writing to that server from other writers.
 
+        # That writer's own test vector guards its share, but only if its
+        # answer gets through: so we accept what this answer shows of such
+        # a share only if it is what that writer expects to find there, or
+        # what it will have left there (the version we are publishing).
+
         # TODO: Precompute this.
         shares = []
         for shnum, writers in self.writers.items():
-            shares.extend([x.shnum for x in writers if x.server == server])
+            for x in writers:
+                if x.server != server:
+                    continue
+                if x is not writer and x.shnum in read_data:
+                    found = read_data[x.shnum][0]
+                    expected = [testv[-1] for testv in x._testvs]
+                    if (found not in expected and
+                        not (found and x.get_signable().startswith(found))):
+                        continue
+                shares.append(x.shnum)
         known_shnums = set(shares)
         surprise_shares -= known_shnums
         self.log("found the following surprise shares: %s" %
